@@ -22,8 +22,160 @@ func init() {
 	})
 }
 
-const ttmT = "prometheus.tunnelTimeMetrics"
-const acT = "prometheus.activeClient"
+// ttModel: the tunnel-time collector found by shape — a struct with a mutex and a map whose values point to records holding a
+// time.Time (start of the unreported period) and an integer (open tunnels). Members are identified by role, never by name.
+type ttModel struct {
+	T, mapField, guard       string
+	acT, timeField, cntField string
+	keyT                     string
+	starts, stops            []*ssa.Function // entry methods (called from outside the collector) that insert / delete records
+	regOf                    map[*ssa.Function]*Region
+	report                   *ssa.Function // computes now - start
+	sub                      *ssa.Call
+}
+
+// resultOfCall: v is result idx (or any result, idx < 0) of call, directly or dereferenced (a returned pointer).
+func resultOfCall(v ssa.Value, call *ssa.Call, idx int) bool {
+	if u, ok := v.(*ssa.UnOp); ok && u.Op == token.MUL {
+		v = u.X
+	}
+	cc, i, ok := eng.AsResult(v)
+	return ok && cc == call && (idx < 0 || i == idx)
+}
+
+func inProm(h *ssa.Function) bool { return eng.PkgPathOf(h) != eng.Mod+"/prometheus" }
+
+func findTT(c *Ctx, rule string) *ttModel {
+	p := c.P
+	pkg := p.AllPkgs[eng.Mod+"/prometheus"]
+	if pkg == nil || pkg.Types == nil {
+		c.Undecided(rule, "anchor:prometheus-package", "-", "package prometheus not loaded")
+		return nil
+	}
+	var m *ttModel
+	sc := pkg.Types.Scope()
+	for _, name := range sc.Names() {
+		tn, ok := sc.Lookup(name).(*types.TypeName)
+		if !ok {
+			continue
+		}
+		st, ok := tn.Type().Underlying().(*types.Struct)
+		if !ok {
+			continue
+		}
+		cand := &ttModel{T: "prometheus." + name, regOf: map[*ssa.Function]*Region{}}
+		for i := 0; i < st.NumFields(); i++ {
+			f := st.Field(i)
+			if isSyncType(f.Type()) && strings.Contains(f.Type().String(), "Mutex") {
+				cand.guard = cand.T + "." + f.Name()
+			}
+			mt, ok := f.Type().Underlying().(*types.Map)
+			if !ok {
+				continue
+			}
+			pt, ok := mt.Elem().(*types.Pointer)
+			if !ok {
+				continue
+			}
+			rs, ok := pt.Elem().Underlying().(*types.Struct)
+			if !ok {
+				continue
+			}
+			tf, cf := "", ""
+			for j := 0; j < rs.NumFields(); j++ {
+				g := rs.Field(j)
+				if g.Type().String() == "time.Time" {
+					tf = g.Name()
+				}
+				if b, ok := g.Type().Underlying().(*types.Basic); ok && b.Info()&types.IsInteger != 0 {
+					cf = g.Name()
+				}
+			}
+			if tf != "" && cf != "" {
+				cand.mapField, cand.acT, cand.timeField, cand.cntField = f.Name(), eng.TypeName(pt), tf, cf
+				cand.keyT = eng.TypeName(mt.Key())
+			}
+		}
+		if cand.guard != "" && cand.mapField != "" {
+			m = cand
+		}
+	}
+	if m == nil {
+		c.Undecided(rule, "anchor:tunnel-time-collector", "-", "no struct in package prometheus with a mutex and a map of records holding a start time and an open count")
+		return nil
+	}
+	isMapOp := func(ins ssa.Instruction, del bool) bool {
+		var mv ssa.Value
+		switch x := ins.(type) {
+		case *ssa.MapUpdate:
+			if del {
+				return false
+			}
+			mv = x.Map
+		case *ssa.Call:
+			if _, ok := isBuiltinCall(x, "delete"); !ok || !del {
+				return false
+			}
+			mv = x.Call.Args[0]
+		default:
+			return false
+		}
+		return p.AnyFrom(mv, eng.Plain, func(v ssa.Value) bool { return eng.IsFieldLoad(v, m.T, m.mapField) })
+	}
+	for _, f := range p.FnsIn("prometheus") {
+		if f.Parent() != nil || f.Signature.Recv() == nil || eng.TypeName(f.Signature.Recv().Type()) != m.T || f.Synthetic != "" {
+			continue
+		}
+		external := false
+		for _, s := range p.CallSitesOf(f) {
+			r := eng.Root(s.Fn)
+			if p.IsTestSupport(s.Fn) {
+				continue
+			}
+			if r.Signature.Recv() == nil || eng.TypeName(r.Signature.Recv().Type()) != m.T {
+				external = true
+			}
+		}
+		if !external {
+			continue
+		}
+		reg := c.NewRegion(f, 3, inProm)
+		m.regOf[f] = reg
+		ins, del := false, false
+		reg.Instrs(func(_ *ssa.Function, i ssa.Instruction) {
+			if isMapOp(i, false) {
+				ins = true
+			}
+			if isMapOp(i, true) {
+				del = true
+			}
+		})
+		if ins {
+			m.starts = append(m.starts, f)
+		}
+		if del {
+			m.stops = append(m.stops, f)
+		}
+	}
+	for _, f := range p.FnsIn("prometheus") {
+		for _, cl := range eng.Calls(f) {
+			call, ok := cl.(*ssa.Call)
+			if !ok || eng.CalleeName(&call.Call) != "(time.Time).Sub" {
+				continue
+			}
+			for _, a := range call.Call.Args {
+				if p.AnyFrom(a, eng.Plain, func(v ssa.Value) bool { return eng.IsFieldLoad(v, m.acT, m.timeField) }) {
+					m.report, m.sub = f, call
+				}
+			}
+		}
+	}
+	if len(m.starts) == 0 || len(m.stops) == 0 {
+		c.Undecided(rule, "anchor:start/stop-entry-points", "-", "the collector has no externally called method that inserts a record / none that deletes one")
+		return nil
+	}
+	return m
+}
 
 func isClockCall(c *Ctx, call *ssa.Call) bool {
 	if n := eng.CalleeName(&call.Call); n == "time.Now" {
@@ -47,9 +199,9 @@ func isClockCall(c *Ctx, call *ssa.Call) bool {
 		}()
 }
 
-// timeSinks: forward def-use of a time.Time value to (a) stores into activeClient.startTime, (b) operands of Time.Sub,
+// timeSinks: forward def-use of a time.Time value to (a) stores into the record's start-time field, (b) operands of Time.Sub,
 // following repo calls through parameters.
-func timeSinks(c *Ctx, v ssa.Value, seen map[ssa.Value]bool, out *[]string) {
+func timeSinks(c *Ctx, m *ttModel, v ssa.Value, seen map[ssa.Value]bool, out *[]string) {
 	if seen[v] {
 		return
 	}
@@ -65,27 +217,33 @@ func timeSinks(c *Ctx, v ssa.Value, seen map[ssa.Value]bool, out *[]string) {
 				continue
 			}
 			if fa, ok := u.Addr.(*ssa.FieldAddr); ok {
-				if t, f, _, ok := eng.FieldOf(fa); ok && t == acT && f == "startTime" {
-					*out = append(*out, "store to "+acT+".startTime at "+c.P.IPos(u))
+				if t, f, _, ok := eng.FieldOf(fa); ok && t == m.acT && f == m.timeField {
+					*out = append(*out, "store to "+m.acT+"."+m.timeField+" at "+c.P.IPos(u))
 				}
 				continue
 			}
 			if cell := eng.CellRoot(u.Addr); cell != nil {
-				// loads of the cell
 				for _, f := range eng.Family(cell.Parent()) {
 					for _, b := range f.Blocks {
 						for _, ins := range b.Instrs {
 							if l, ok := ins.(*ssa.UnOp); ok && l.Op == token.MUL && eng.CellRoot(l.X) == cell {
-								timeSinks(c, l, seen, out)
+								timeSinks(c, m, l, seen, out)
 							}
 						}
 					}
 				}
 			}
 		case *ssa.Phi:
-			timeSinks(c, u, seen, out)
+			timeSinks(c, m, u, seen, out)
 		case *ssa.MakeInterface, *ssa.ChangeType:
-			timeSinks(c, u.(ssa.Value), seen, out)
+			timeSinks(c, m, u.(ssa.Value), seen, out)
+		case *ssa.Return:
+			// returned to the callers
+			for _, s := range c.P.CallSitesOf(u.Parent()) {
+				if cv, ok := s.Ins.(ssa.Value); ok && len(u.Results) == 1 {
+					timeSinks(c, m, cv, seen, out)
+				}
+			}
 		case ssa.CallInstruction:
 			n := eng.CalleeName(u.Common())
 			if n == "(time.Time).Sub" {
@@ -95,7 +253,7 @@ func timeSinks(c *Ctx, v ssa.Value, seen map[ssa.Value]bool, out *[]string) {
 			for _, callee := range repoCallees(c, u) {
 				for i, a := range u.Common().Args {
 					if a == v && i < len(callee.Params) {
-						timeSinks(c, callee.Params[i], seen, out)
+						timeSinks(c, m, callee.Params[i], seen, out)
 					}
 				}
 			}
@@ -105,16 +263,12 @@ func timeSinks(c *Ctx, v ssa.Value, seen map[ssa.Value]bool, out *[]string) {
 
 func runC17(c *Ctx) {
 	p, l := c.P, c.L()
-	guard := ""
-	for _, fl := range p.StructFields(ttmT) {
-		if isSyncType(fl.Type()) && strings.Contains(fl.Type().String(), "Mutex") {
-			guard = ttmT + "." + fl.Name()
-		}
-	}
-	if guard == "" {
-		c.Undecided("CLOCK", "anchor:collector-mutex", "-", "tunnelTimeMetrics has no mutex field")
+	m := findTT(c, "ANCHOR")
+	if m == nil {
 		return
 	}
+	guard := m.guard
+	c.Note("model", map[string]string{"collector": m.T, "records": m.acT, "start_time_field": m.timeField, "open_count_field": m.cntField, "start_entries": names(m.starts), "stop_entries": names(m.stops)})
 	// CLOCK
 	n := 0
 	for _, f := range p.FnsIn("prometheus") {
@@ -124,7 +278,7 @@ func runC17(c *Ctx) {
 				continue
 			}
 			var sinks []string
-			timeSinks(c, call, map[ssa.Value]bool{}, &sinks)
+			timeSinks(c, m, call, map[ssa.Value]bool{}, &sinks)
 			if len(sinks) == 0 {
 				continue
 			}
@@ -136,10 +290,19 @@ func runC17(c *Ctx) {
 	}
 	c.Floor("CLOCK", "clock reads that flow into start times or durations", n, 3)
 
-	rulePair(c)
-	ruleReset(c, guard)
+	rulePair(c, m)
+	ruleReset(c, m)
 	// registration, deregistration and scrape are each one critical section (lookup-then-insert across an unlock loses a tunnel)
-	ruleAtomic(c, "ATOMIC", map[string]bool{"(*prometheus.tunnelTimeMetrics).startConnection": true, "(*prometheus.tunnelTimeMetrics).stopConnection": true, "(*prometheus.tunnelTimeMetrics).Collect": true})
+	only := map[string]bool{}
+	for _, f := range p.FnsIn("prometheus") {
+		for _, cl := range eng.Calls(f) {
+			if op := l.AsLockOp(cl.Common()); op != nil && op.Class == guard && (op.Kind == "Lock" || op.Kind == "RLock") {
+				only[short(f)] = true
+			}
+		}
+	}
+	c.Floor("ATOMIC", "functions that lock the collector", len(only), 3)
+	ruleAtomic(c, "ATOMIC", only)
 	// every authenticated TCP connection starts its tunnel (and only those): the authentication report is made on every
 	// path from the authentication-success edge, only there, at most once
 	if a := findTCP(c, "STARTCALL"); a != nil {
@@ -156,21 +319,49 @@ func fnByMethod(c *Ctx, pkg, recvT, name string) *ssa.Function {
 	return nil
 }
 
-// C17.PAIR
-func rulePair(c *Ctx) {
-	p := c.P
-	start, stop := fnByMethod(c, "prometheus", ttmT, "startConnection"), fnByMethod(c, "prometheus", ttmT, "stopConnection")
-	if start == nil || stop == nil {
-		c.Undecided("PAIR", "anchor:start/stopConnection", "-", "tunnelTimeMetrics has no startConnection/stopConnection methods")
-		return
+// hasMethodOnNamed: the named struct type (pointer receiver included) has a method with this name.
+func typeHasMethod(c *Ctx, typeName, method string) bool {
+	for _, f := range c.P.Fns {
+		if f.Name() == method && f.Parent() == nil && f.Signature.Recv() != nil && eng.TypeName(f.Signature.Recv().Type()) == typeName {
+			return true
+		}
 	}
-	// allowed callers by role
-	udpCtor := map[*ssa.Function]bool{}
-	for _, a := range p.Allocs("prometheus.udpConnMetrics") {
-		udpCtor[a.Fn] = true
+	return false
+}
+
+// C17.PAIR
+func rulePair(c *Ctx, m *ttModel) {
+	p := c.P
+	isEntry := func(list []*ssa.Function, f *ssa.Function) bool {
+		for _, e := range list {
+			if e == f {
+				return true
+			}
+		}
+		return false
+	}
+	// the connection-metrics type a call site belongs to: the receiver of the calling method, or the type the calling
+	// constructor allocates (the one with a RemoveNatEntry method)
+	ownerT := func(f *ssa.Function) string {
+		if f.Signature.Recv() != nil {
+			return eng.TypeName(f.Signature.Recv().Type())
+		}
+		for _, b := range f.Blocks {
+			for _, ins := range b.Instrs {
+				if al, ok := ins.(*ssa.Alloc); ok {
+					if pt, ok := al.Type().(*types.Pointer); ok {
+						tn := eng.TypeName(pt.Elem())
+						if typeHasMethod(c, tn, "RemoveNatEntry") {
+							return tn
+						}
+					}
+				}
+			}
+		}
+		return ""
 	}
 	allowedStart := func(f *ssa.Function) bool {
-		return (f.Name() == "AddAuthenticated" && f.Signature.Recv() != nil) || udpCtor[f]
+		return (f.Name() == "AddAuthenticated" && f.Signature.Recv() != nil) || (f.Signature.Recv() == nil && ownerT(f) != "")
 	}
 	allowedStop := func(f *ssa.Function) bool {
 		return f.Signature.Recv() != nil && (f.Name() == "AddClosed" || f.Name() == "RemoveNatEntry")
@@ -178,86 +369,171 @@ func rulePair(c *Ctx) {
 	type site struct {
 		eng.Site
 		start bool
+		entry *ssa.Function
 	}
 	var sites []site
-	for _, s := range p.CallSitesOf(start) {
-		sites = append(sites, site{s, true})
-		c.CheckAt("PAIR", "start-caller:"+short(s.Fn), s.Ins, allowedStart(s.Fn), "a tunnel is started from a function that is neither the authentication report nor the UDP entry constructor (unauthenticated connections would accrue tunnel time, or starts lose their matching stop)")
+	for _, e := range m.starts {
+		for _, s := range p.CallSitesOf(e) {
+			r := eng.Root(s.Fn)
+			if p.IsTestSupport(s.Fn) || (r.Signature.Recv() != nil && eng.TypeName(r.Signature.Recv().Type()) == m.T) {
+				continue
+			}
+			sites = append(sites, site{s, true, e})
+			c.CheckAt("PAIR", "start-caller:"+short(s.Fn), s.Ins, allowedStart(s.Fn) && !isEntry(m.stops, e), "a tunnel is started from a function that is neither the authentication report nor the UDP entry constructor (unauthenticated connections would accrue tunnel time, or starts lose their matching stop)")
+		}
 	}
-	for _, s := range p.CallSitesOf(stop) {
-		sites = append(sites, site{s, false})
-		c.CheckAt("PAIR", "stop-caller:"+short(s.Fn), s.Ins, allowedStop(s.Fn), "a tunnel is stopped from a function that is neither the close report nor the entry removal")
+	for _, e := range m.stops {
+		for _, s := range p.CallSitesOf(e) {
+			r := eng.Root(s.Fn)
+			if p.IsTestSupport(s.Fn) || (r.Signature.Recv() != nil && eng.TypeName(r.Signature.Recv().Type()) == m.T) {
+				continue
+			}
+			sites = append(sites, site{s, false, e})
+			c.CheckAt("PAIR", "stop-caller:"+short(s.Fn), s.Ins, allowedStop(s.Fn), "a tunnel is stopped from a function that is neither the close report nor the entry removal")
+		}
 	}
 	c.Floor("PAIR", "start/stop call sites", len(sites), 4)
-	// key agreement: every site's key comes from one key function applied to (client address field/param, access key field/param)
+	// key agreement: every site's key comes from one key function applied to (client address, access key) held in the same two
+	// fields of the connection metrics object at start and at stop
+	isKeyFn := func(call *ssa.Call) bool {
+		f := call.Call.StaticCallee()
+		if f == nil || eng.PkgPathOf(f) != eng.Mod+"/prometheus" {
+			return false
+		}
+		rs := f.Signature.Results()
+		return rs.Len() >= 1 && eng.TypeName(rs.At(0).Type()) == m.keyT
+	}
 	keyFns := map[string]bool{}
+	type fields struct{ addr, key string }
+	startF, stopF := map[string]fields{}, map[string]fields{}
 	for _, s := range sites {
-		call := s.Ins.(ssa.CallInstruction)
-		keyArg := eng.Arg(call.Common(), 0)
-		var kc *ssa.Call
-		ok, _ := p.AllFrom(keyArg, eng.OriginOpts{ThroughConvert: true, ThroughFieldLoad: false}, func(v ssa.Value) bool {
-			// *ipKey where ipKey = extract (toIPKey(..)) #0
-			if u, isU := v.(*ssa.UnOp); isU && u.Op == token.MUL {
-				if cc, idx, isR := eng.AsResult(u.X); isR && idx == 0 {
-					kc = cc
-					return true
+		key := short(s.Fn)
+		R := ownerT(s.Fn)
+		// key function calls on this site's path: in the calling function (feeding the call) or inside the entry's region
+		var kcs []*ssa.Call
+		for _, cl := range eng.Calls(s.Fn) {
+			if call, ok := cl.(*ssa.Call); ok && isKeyFn(call) {
+				feeds := false
+				for _, a := range s.Ins.(ssa.CallInstruction).Common().Args {
+					if p.AnyFrom(a, eng.OriginOpts{ThroughConvert: true, ThroughFieldLoad: true}, func(v ssa.Value) bool { return resultOfCall(v, call, -1) }) {
+						feeds = true
+					}
+				}
+				if feeds {
+					kcs = append(kcs, call)
 				}
 			}
-			if cc, idx, isR := eng.AsResult(v); isR && idx == 0 {
-				kc = cc
-				return true
-			}
-			return false
-		})
-		key := short(s.Fn)
-		if !ok || kc == nil {
-			c.CheckAt("PAIR", "key-derivation:"+key, s.Ins, false, "the (IP, key) passed to start/stop is not the result of a key function call")
+		}
+		if len(kcs) == 0 {
+			kcs = m.regOf[s.entry].FindCalls(func(_ string, call *ssa.Call) bool { return isKeyFn(call) })
+		}
+		if len(kcs) != 1 {
+			c.CheckAt("PAIR", "key-derivation:"+key, s.Ins, false, fmt.Sprintf("the (IP, key) used to start/stop is not the result of exactly one key function call on this path (%d found)", len(kcs)))
 			continue
 		}
-		kn := eng.CalleeName(&kc.Call)
-		keyFns[kn] = true
-		// the call must be guarded by the key function's success
-		succ, _ := p.SuccessEdges(s.Fn, []ssa.CallInstruction{kc}, 1)
-		c.CheckAt("PAIR", "key-derivation-checked:"+key, s.Ins, len(succ) > 0 && eng.Cut(s.Fn, s.Ins.Block(), succ), "start/stop is reachable when the key function failed")
-		// arguments: address from the clientAddr field (or the parameter stored into it), key from accessKey field (or the parameter stored into it)
-		recvT := ""
-		if s.Fn.Signature.Recv() != nil {
-			recvT = eng.TypeName(s.Fn.Signature.Recv().Type())
-		} else {
-			for _, a := range p.Allocs("prometheus.udpConnMetrics") {
-				if a.Fn == s.Fn {
-					recvT = "prometheus.udpConnMetrics"
+		kc := kcs[0]
+		keyFns[eng.CalleeName(&kc.Call)] = true
+		// whatever consumes the key in the key call's function runs only when the key function succeeded
+		if ei := errorResultIndex(kc.Call.Signature()); ei >= 0 {
+			succ, _ := p.SuccessEdges(kc.Parent(), []ssa.CallInstruction{kc}, ei)
+			okG := len(succ) > 0
+			nUse := 0
+			for _, cl := range eng.Calls(kc.Parent()) {
+				uses := false
+				for _, a := range cl.Common().Args {
+					if p.AnyFrom(a, eng.OriginOpts{ThroughConvert: true, ThroughFieldLoad: true}, func(v ssa.Value) bool { return resultOfCall(v, kc, 0) }) {
+						uses = true
+					}
+				}
+				if uses {
+					nUse++
+					if !eng.Cut(kc.Parent(), cl.Block(), succ) {
+						okG = false
+					}
 				}
 			}
+			c.CheckAt("PAIR", "key-derivation-checked:"+key, s.Ins, okG && nUse > 0, "start/stop is reachable when the key function failed")
 		}
-		for i, fld := range []string{"clientAddr", "accessKey"} {
-			arg := eng.Arg(&kc.Call, i)
+		// the key function's arguments, expressed in the calling function
+		lift := func(v ssa.Value) ssa.Value {
+			for d := 0; d < 3; d++ {
+				os := p.Origins(v, eng.Plain)
+				if len(os) != 1 {
+					return v
+				}
+				pa, ok := os[0].(*ssa.Parameter)
+				if !ok || pa.Parent() == s.Fn {
+					return v
+				}
+				g := pa.Parent()
+				idx := -1
+				for i, q := range g.Params {
+					if q == pa {
+						idx = i
+					}
+				}
+				var sitesG []ssa.CallInstruction
+				if g == s.entry {
+					sitesG = []ssa.CallInstruction{s.Ins.(ssa.CallInstruction)}
+				} else {
+					for _, cs := range p.CallSitesOf(g) {
+						if m.regOf[s.entry].In[cs.Fn] {
+							sitesG = append(sitesG, cs.Ins.(ssa.CallInstruction))
+						}
+					}
+				}
+				if len(sitesG) != 1 || idx < 0 || idx >= len(sitesG[0].Common().Args) {
+					return v
+				}
+				v = sitesG[0].Common().Args[idx]
+			}
+			return v
+		}
+		var got fields
+		for i := 0; i < 2 && i < len(kc.Call.Args); i++ {
+			arg := lift(kc.Call.Args[i])
+			fld := ""
 			good, bad := p.AllFrom(arg, eng.Plain, func(v ssa.Value) bool {
-				if eng.IsFieldLoad(v, recvT, fld) {
+				if t, f, _, ok := eng.FieldLoad(v); ok && t == R {
+					fld = f
 					return true
 				}
-				if pa, isP := v.(*ssa.Parameter); isP {
-					// the parameter must also be what is stored into recvT.fld in this function
-					for _, st := range p.FieldStores(recvT, fld) {
-						if st.Fn == s.Fn && st.Val != nil && p.AnyFrom(st.Val, eng.Plain, func(x ssa.Value) bool { return x == ssa.Value(pa) }) {
-							return true
+				if pa, isP := v.(*ssa.Parameter); isP && pa.Parent() == s.Fn {
+					// the parameter must also be what is stored into a field of the metrics object in this function
+					for _, fl := range p.StructFields(R) {
+						for _, st := range p.FieldStores(R, fl.Name()) {
+							if st.Fn == s.Fn && st.Val != nil && p.AnyFrom(st.Val, eng.Plain, func(x ssa.Value) bool { return x == ssa.Value(pa) }) {
+								fld = fl.Name()
+								return true
+							}
 						}
 					}
 				}
 				return false
 			})
-			c.CheckAt("PAIR", fmt.Sprintf("key-argument:%s:%s", key, fld), kc, good, fmt.Sprintf("argument %d of the key function does not come from the %s field of the connection metrics (or the value being stored into it): start and stop would use different keys (%s)", i, fld, valsStr(p, bad)))
+			what := []string{"client address", "access key"}[i]
+			c.CheckAt("PAIR", fmt.Sprintf("key-argument:%s:%s", key, what), kc, good, fmt.Sprintf("argument %d of the key function (%s) does not come from a field of the connection metrics object (or the value being stored into it): start and stop would use different keys (%s)", i, what, valsStr(p, bad)))
+			if i == 0 {
+				got.addr = fld
+			} else {
+				got.key = fld
+			}
+		}
+		if s.start {
+			startF[R] = got
+		} else {
+			stopF[R] = got
 		}
 		// stop from the close report only for authenticated connections
-		if !s.start && s.Fn.Name() == "AddClosed" {
-			var nonEmpty eng.EdgeSet = eng.EdgeSet{}
+		if !s.start && s.Fn.Name() == "AddClosed" && got.key != "" {
+			nonEmpty := eng.EdgeSet{}
 			for _, b := range s.Fn.Blocks {
 				iff, ok := b.Instrs[len(b.Instrs)-1].(*ssa.If)
 				if !ok {
 					continue
 				}
 				bo, ok := iff.Cond.(*ssa.BinOp)
-				if !ok || !eng.IsFieldLoad(bo.X, recvT, "accessKey") {
+				if !ok || !eng.IsFieldLoad(bo.X, R, got.key) {
 					continue
 				}
 				if sv, ok := eng.ConstString(bo.Y); ok && sv == "" {
@@ -268,62 +544,53 @@ func rulePair(c *Ctx) {
 					}
 				}
 			}
-			c.CheckAt("PAIR", "stop-only-when-authenticated:"+key, s.Ins, len(nonEmpty) > 0 && eng.Cut(s.Fn, s.Ins.Block(), nonEmpty), "the close report stops a tunnel for connections that never authenticated (no accessKey != \"\" guard)")
+			c.CheckAt("PAIR", "stop-only-when-authenticated:"+key, s.Ins, len(nonEmpty) > 0 && eng.Cut(s.Fn, s.Ins.Block(), nonEmpty), "the close report stops a tunnel for connections that never authenticated (no access-key != \"\" guard)")
 		}
+	}
+	for R, sf := range startF {
+		tf, ok := stopF[R]
+		c.Check("PAIR", "same-key-fields:"+R, "-", ok && sf == tf && sf.addr != "" && sf.key != "", fmt.Sprintf("tunnels of %s are started with the key (%s, %s) and stopped with (%s, %s): a stop would not find the record its start created", R, sf.addr, sf.key, tf.addr, tf.key))
 	}
 	c.Check("PAIR", "one-key-function", "-", len(keyFns) == 1, fmt.Sprintf("start and stop sites derive their keys through different functions: %v", keyFns))
 }
 
 // C17.RESET
-func ruleReset(c *Ctx, guard string) {
+func ruleReset(c *Ctx, m *ttModel) {
 	p := c.P
-	// the report function: calls Time.Sub with an operand loaded from activeClient.startTime
-	var report *ssa.Function
-	var sub *ssa.Call
-	for _, f := range p.FnsIn("prometheus") {
-		for _, cl := range eng.Calls(f) {
-			call, ok := cl.(*ssa.Call)
-			if !ok || eng.CalleeName(&call.Call) != "(time.Time).Sub" {
-				continue
-			}
-			for _, a := range call.Call.Args {
-				if p.AnyFrom(a, eng.Plain, func(v ssa.Value) bool { return eng.IsFieldLoad(v, acT, "startTime") }) {
-					report, sub = f, call
-				}
-			}
-		}
-	}
+	acT := m.acT
+	report, sub := m.report, m.sub
 	if report == nil {
-		c.Undecided("RESET", "anchor:report-function", "-", "no function subtracts activeClient.startTime from a clock value")
+		c.Undecided("RESET", "anchor:report-function", "-", "no function subtracts the record's start time from a clock value")
 		return
 	}
 	key := short(report)
+	rreg := c.NewRegion(report, 2, inProm)
 	tNow := sub.Call.Args[0] // receiver of Sub
-	okRecv := !p.AnyFrom(tNow, eng.Plain, func(v ssa.Value) bool { return eng.IsFieldLoad(v, acT, "startTime") })
+	okRecv := !p.AnyFrom(tNow, eng.Plain, func(v ssa.Value) bool { return eng.IsFieldLoad(v, acT, m.timeField) })
 	c.CheckAt("RESET", key+":duration-is-now-minus-start", sub, okRecv, "the subtraction is start - now instead of now - start")
-	// every counter Add in the report function takes Seconds() of the same Sub result
+	// every counter Add in the report code takes Seconds() of the same Sub result
 	nAdd := 0
-	for _, cl := range eng.Calls(report) {
+	for _, cl := range rreg.Calls() {
 		call, ok := cl.(*ssa.Call)
 		if !ok || eng.MethodName(&call.Call) != "Add" || !strings.Contains(eng.CalleeName(&call.Call), "prom.Counter") {
 			continue
 		}
 		nAdd++
 		arg := eng.Arg(&call.Call, 0)
-		good, bad := p.AllFrom(arg, eng.Plain, func(v ssa.Value) bool {
+		good, bad := p.AllFrom(arg, deepF, func(v ssa.Value) bool {
 			sc, ok := v.(*ssa.Call)
 			if !ok || eng.CalleeName(&sc.Call) != "(time.Duration).Seconds" {
 				return false
 			}
-			g, _ := p.AllFrom(sc.Call.Args[0], eng.Plain, func(x ssa.Value) bool { return x == ssa.Value(sub) })
+			g, _ := p.AllFrom(sc.Call.Args[0], deepF, func(x ssa.Value) bool { return x == ssa.Value(sub) })
 			return g
 		})
 		c.CheckAt("RESET", fmt.Sprintf("%s:counter-add#%d:same-duration", key, nAdd), call, good, "a counter is advanced by something other than Seconds() of the one duration computed in this report: per-key and per-location totals diverge ("+valsStr(p, bad)+")")
 	}
-	c.Floor("RESET", "counter Add calls in the report function", nAdd, 2)
-	// after the Sub, every path to exit stores the same clock value into startTime
+	c.Floor("RESET", "counter Add calls in the report code", nAdd, 2)
+	// after the Sub, every path to exit stores the same clock value into the start-time field
 	isReset := func(ins ssa.Instruction) bool {
-		st, ok := isStoreToField(ins, acT, "startTime")
+		st, ok := isStoreToField(ins, acT, m.timeField)
 		if !ok {
 			return false
 		}
@@ -339,21 +606,37 @@ func ruleReset(c *Ctx, guard string) {
 	}
 	okR, bad := eng.MustPass(eng.After(sub), isReset)
 	c.CheckAt("RESET", key+":start-time-reset-to-same-clock-value", sub, okR, fmt.Sprintf("after reporting, the function can return at %s without storing the reported clock value as the new start time: the interval is counted again or partly lost at the next report", p.IPos(bad)))
-	// any other store to startTime in this function is a violation
 	for _, b := range report.Blocks {
 		for _, ins := range b.Instrs {
-			if _, ok := isStoreToField(ins, acT, "startTime"); ok {
+			if _, ok := isStoreToField(ins, acT, m.timeField); ok {
 				c.CheckAt("RESET", key+":no-other-start-time-store", ins, isReset(ins), "the report function stores a start time that is not the clock value it reported against (e.g. a second clock read): the time between the two reads is lost")
 			}
 		}
 	}
-
-	// stopConnection: report then delete, both on connCount <= 0
-	stop := fnByMethod(c, "prometheus", ttmT, "stopConnection")
-	start := fnByMethod(c, "prometheus", ttmT, "startConnection")
-	if stop != nil {
-		zero, tests := zeroTestEdges(stop, acT, "connCount")
-		c.Check("RESET", short(stop)+":zero-test", p.Pos(stop.Pos()), len(tests) > 0, "stopConnection never tests the open count against zero")
+	// the stop code: the function that decrements the open count; report then delete, both only at zero
+	isDelta := func(d int64) func(ssa.Instruction) bool {
+		return func(ins ssa.Instruction) bool {
+			st, ok := isStoreToField(ins, acT, m.cntField)
+			if !ok {
+				return false
+			}
+			k, ok := incrementOf(st.Val, acT, m.cntField)
+			return ok && k == d
+		}
+	}
+	var stop *ssa.Function
+	for _, e := range m.stops {
+		for _, f := range m.regOf[e].Fns {
+			if bodyHas(f, isDelta(-1)) {
+				stop = f
+			}
+		}
+	}
+	if stop == nil {
+		c.Check("RESET", "stop:decrements-the-open-count", "-", false, "no stop code decrements the record's open count")
+	} else {
+		zero, tests := zeroTestEdges(stop, acT, m.cntField)
+		c.Check("RESET", short(stop)+":zero-test", p.Pos(stop.Pos()), len(tests) > 0, "the stop code never tests the open count against zero")
 		var rep, del ssa.Instruction
 		for _, cl := range eng.Calls(stop) {
 			for _, cal := range repoCallees(c, cl) {
@@ -372,56 +655,69 @@ func ruleReset(c *Ctx, guard string) {
 			c.CheckAt("RESET", short(stop)+":delete-only-at-zero", del, eng.Cut(stop, del.Block(), zero), "the client is deleted while other tunnels are open (time lost)")
 			c.CheckAt("RESET", short(stop)+":report-before-delete", del, eng.Dominates(rep, del), "the client is deleted before its remaining time is reported")
 		}
-		// decrement exactly once
-		decr := func(ins ssa.Instruction) bool {
-			st, ok := isStoreToField(ins, acT, "connCount")
-			if !ok {
-				return false
-			}
-			d, ok := incrementOf(st.Val, acT, "connCount")
-			return ok && d == -1
-		}
-		_, mx, _ := eng.CountOnPaths(eng.Point{B: stop.Blocks[0]}, decr, nil)
+		_, mx, _ := eng.CountOnPaths(eng.Point{B: stop.Blocks[0]}, isDelta(-1), nil)
 		c.Check("RESET", short(stop)+":decrement-at-most-once", p.Pos(stop.Pos()), mx == 1, fmt.Sprintf("open count decremented up to %d times per stop", mx))
 	}
-	if start != nil {
-		incr := func(ins ssa.Instruction) bool {
-			st, ok := isStoreToField(ins, acT, "connCount")
-			if !ok {
-				return false
+	// the start code: per call the open count goes up by exactly one — an increment, or the insertion of a fresh record
+	// whose count is initialised to 1 — and a fresh record is inserted only when the lookup missed
+	for _, e := range m.starts {
+		reg := m.regOf[e]
+		var start *ssa.Function
+		var insert *ssa.MapUpdate
+		reg.Instrs(func(f *ssa.Function, ins ssa.Instruction) {
+			if mu, ok := ins.(*ssa.MapUpdate); ok && p.AnyFrom(mu.Map, eng.Plain, func(v ssa.Value) bool { return eng.IsFieldLoad(v, m.T, m.mapField) }) {
+				start, insert = f, mu
 			}
-			d, ok := incrementOf(st.Val, acT, "connCount")
-			return ok && d == 1
+		})
+		if start == nil {
+			continue
 		}
-		mn, mx, _ := eng.CountOnPaths(eng.Point{B: start.Blocks[0]}, incr, nil)
-		c.Check("RESET", short(start)+":increment-exactly-once", p.Pos(start.Pos()), mn == 1 && mx == 1, fmt.Sprintf("open count incremented %d..%d times per start", mn, mx))
-		// a new client record is created only when none exists (lookup miss edge)
+		// initial count of fresh records
+		initOne := false
+		okInit := true
 		for _, a := range p.Allocs(acT) {
-			if a.Fn != start {
+			if !reg.In[a.Fn] {
 				continue
 			}
-			miss := eng.EdgeSet{}
-			for _, b := range start.Blocks {
-				iff, ok := b.Instrs[len(b.Instrs)-1].(*ssa.If)
-				if !ok {
+			for _, st := range p.FieldStores(acT, m.cntField) {
+				if st.Fn != a.Fn || !st.Fresh {
 					continue
 				}
-				if ex, ok := iff.Cond.(*ssa.Extract); ok && ex.Index == 1 {
-					if lk, ok := ex.Tuple.(*ssa.Lookup); ok && lk.CommaOk {
-						miss[eng.Edge{From: b, To: b.Succs[1]}] = true
-					}
+				if k, ok := eng.ConstInt(st.Val); ok && k == 1 {
+					initOne = true
+				} else if !ok || k != 0 {
+					okInit = false
 				}
-				if u, ok := iff.Cond.(*ssa.UnOp); ok && u.Op == token.NOT {
-					if ex, ok := u.X.(*ssa.Extract); ok && ex.Index == 1 {
-						if lk, ok := ex.Tuple.(*ssa.Lookup); ok && lk.CommaOk {
-							miss[eng.Edge{From: b, To: b.Succs[0]}] = true
-						}
+			}
+		}
+		c.Check("RESET", short(start)+":fresh-record-count-is-0-or-1", p.Pos(start.Pos()), okInit, "a fresh client record starts with an open count other than 0 (then incremented) or 1")
+		ev := func(ins ssa.Instruction) bool {
+			if isDelta(1)(ins) {
+				return true
+			}
+			return initOne && ins == ssa.Instruction(insert)
+		}
+		mn, mx, _ := eng.CountOnPaths(eng.Point{B: start.Blocks[0]}, ev, nil)
+		c.Check("RESET", short(start)+":increment-exactly-once", p.Pos(start.Pos()), mn == 1 && mx == 1, fmt.Sprintf("open count goes up %d..%d times per start", mn, mx))
+		miss := eng.EdgeSet{}
+		for _, b := range start.Blocks {
+			iff, ok := b.Instrs[len(b.Instrs)-1].(*ssa.If)
+			if !ok {
+				continue
+			}
+			if ex, ok := iff.Cond.(*ssa.Extract); ok && ex.Index == 1 {
+				if lk, ok := ex.Tuple.(*ssa.Lookup); ok && lk.CommaOk {
+					miss[eng.Edge{From: b, To: b.Succs[1]}] = true
+				}
+			}
+			if u, ok := iff.Cond.(*ssa.UnOp); ok && u.Op == token.NOT {
+				if ex, ok := u.X.(*ssa.Extract); ok && ex.Index == 1 {
+					if lk, ok := ex.Tuple.(*ssa.Lookup); ok && lk.CommaOk {
+						miss[eng.Edge{From: b, To: b.Succs[0]}] = true
 					}
 				}
 			}
-			c.CheckAt("RESET", short(start)+":new-record-only-on-miss", a.Ins, len(miss) > 0 && eng.Cut(start, a.Ins.Block(), miss), "an existing client's record (and its running start time) is replaced by a fresh one")
 		}
+		c.CheckAt("RESET", short(start)+":new-record-only-on-miss", insert, len(miss) > 0 && eng.Cut(start, insert.Block(), miss), "an existing client's record (and its running start time) is replaced by a fresh one")
 	}
-	_ = types.Typ
-	_ = guard
 }
